@@ -676,6 +676,12 @@ def predicates(case, impl):
             return out
         N, nrep = impl["N"], case["nrep"]
         rows = impl["rows"]
+        keys = Counter((r[4], r[1], r[2]) for r in rows)
+        dup = [k for k, c in keys.items() if c > 1][:3]
+        if dup or {r[1] for r in rows} != set(range(N)):
+            out.append(Failure(clause="fall_table_exact", key="fall_table_exact|Snowfall.to_frame|keys",
+                               detail=f"(seed, vial, variable) keys occurring more than once: {dup}; vial indices in the "
+                                      f"table: {len({r[1] for r in rows})} distinct, max {max(r[1] for r in rows)}, batch has {N}"))
         if len(rows) != nrep * N * 3:
             out.append(Failure(clause="fall_table_exact", key="fall_table_exact|Snowfall.to_frame|row-count",
                                detail=f"{len(rows)} rows, expected {nrep}*{N}*3"))
@@ -865,6 +871,10 @@ def cases(rng, tier):
                    repoint="hexagonal")
         yield dict(kind="fall", nv=nv, nrep=2, pool=2, ncols=60, dt=1, how="sequential", queries=gq, arr="hexagonal",
                    repoint="square")
+    # a LARGE batch (> 256 vials): every (seed, vial, variable) key once, vial indices up to N-1 whatever the dtype
+    yield dict(kind="fall", nv=[20, 15, 1], nrep=2, pool=2, ncols=40, dt=1, how="async",
+               queries=[dict(what="tnuc", groups="corner", seeds=None), dict(what="Tnuc", groups="edge", seeds=[1]),
+                        dict(what="tsol", groups="core", seeds=None), dict(what="tnuc", groups="all", seeds=[0])])
     # sync runs with several workers (the repetitions complete out of seed order, see `_slow_seed0`)
     for nrep, pool in ((2, 2), (3, 3), (5, 2), (4, 4)):
         yield dict(kind="fall", nv=rng.choice([[2, 2, 1], [3, 3, 1]]), nrep=nrep, pool=pool, ncols=60, dt=1, how="sync",
